@@ -41,7 +41,7 @@ CHECKS = {
         'design_ref': 'DESIGN.md 6 C05',
         'note': 'As C01. Known findings: let-shadowing clobbers the outer binding; names used in inline Python / repetition bounds are not '
                 'captured when an expression is spilled or passed as an argument. Activation isolation rests on CPython local-variable semantics. '
-                'The scope tracker SymbolCounter is checked BOUNDED only (every well-nested forest of <= 4 nodes against the stack-of-binders view), not proved.',
+                'The scope tracker SymbolCounter: previsit / postvisit / is_bound proved against pointwise contracts (contracts/repo_scope.py); that the count equals the number of open binders over a whole visit is a paper induction, cross-checked bounded (all forests <= 4 nodes).',
     },
     'C07': {
         'category': 'proof',
